@@ -122,7 +122,7 @@ func linStep(state any, input any, output any) (bool, any) {
 		}
 		s.Cas = out.Cas
 		return true, s
-	case "Set":
+	case "Set", "SetPE":
 		if !out.OK {
 			return false, s
 		}
@@ -328,6 +328,9 @@ func runLinPlan(p linPlan) (devs []Deviation, overlapRMW bool, err error) {
 					}
 				case "Set":
 					e := ds.Set(op.Key, 0, nil, []byte(op.Body))
+					out = linOut{OK: e == nil, ErrCls: errClass(e)}
+				case "SetPE":
+					e := ds.Set(op.Key, 0, &sgbucket.UpsertOptions{PreserveExpiry: true}, []byte(op.Body))
 					out = linOut{OK: e == nil, ErrCls: errClass(e)}
 				case "Add":
 					added, e := ds.Add(op.Key, 0, []byte(op.Body))
@@ -538,16 +541,16 @@ func genLinPlan(rt *rapid.T) linPlan {
 			case "subdoc":
 				op.K, op.Key = pick(rt, []string{"SubDoc", "SubDoc", "Get", "Update"}, "k"), "doc"
 			case "xlist":
-				op.K, op.Key = pick(rt, []string{"UpdateX", "UpdateX", "UpdateX", "GetX", "Set", "Update"}, "k"), "xdoc"
+				op.K, op.Key = pick(rt, []string{"UpdateX", "UpdateX", "UpdateX", "GetX", "Set", "SetPE", "Update"}, "k"), "xdoc"
 			case "mixedx":
 				op.Key = pick(rt, []string{"a", "b"}, "key")
 				op.K = pick(rt, []string{"GetX", "GetX", "Get", "Set", "Add", "Delete", "WriteCas", "Remove", "Update", "UpdateX", "UpdateX", "SubDoc"}, "k")
 			default:
 				op.Key = pick(rt, []string{"a", "b"}, "key")
-				op.K = pick(rt, []string{"Get", "Get", "Set", "Add", "Delete", "WriteCas", "WriteCas", "Remove", "Update", "SubDoc"}, "k")
+				op.K = pick(rt, []string{"Get", "Get", "Set", "SetPE", "Add", "Delete", "WriteCas", "WriteCas", "Remove", "Update", "SubDoc"}, "k")
 			}
 			switch op.K {
-			case "Set", "Add", "WriteCas":
+			case "Set", "SetPE", "Add", "WriteCas":
 				op.Body = fmt.Sprintf(`{"l":["s%d.%d"]}`, wi, i)
 				op.Use = pick(rt, []string{"seen", "seen", "zero"}, "use")
 			}
